@@ -1,5 +1,5 @@
 (* Correspondence entry point for C18.
-   input: (ops mode table edits (json cbor))
+   input: (ops mode table edits (json cbor) switches)
      ops    a store history as in Run/StoreRun.v, except that AddRes carries the text:
             (0 id len cp...) - the length used is the number of codepoints given.
             Tokens: dataset 78 = the text validation set, keys 90 checksum, 91 text, 92 delimiter.
@@ -13,6 +13,10 @@
             a history may contain (9 mode): protect_text in the middle
      json, cbor   1 = the store before the final protect_text could be written to STAM JSON / CBOR and
             read back (otherwise the round trip of the protected store is not demanded: C05, C11)
+     switches     bit mask of the Config reverse-index switches turned OFF for this case (0 = default).
+            The model has no such switches: they disable reverse lookups only, so every answer of
+            protect_text / validate_text must be the one of the default configuration; the records
+            with reverse lookups are compared only when all indices are on
    sub-cases:
      1  the table is a function and free of collisions (the hypothesis on the digest)
      per protect_text (those of the history, then the final one with [mode]):
@@ -181,8 +185,10 @@ Definition run_C18 (x : sx) : sx :=
   let demanded := map (fun h => demand_slot H s0 s1 h (demand_protected txts s1) (ann_pieces txts s1)) (slots s1) in
   L ([triple (of_bool (table_ok tb)) (A 1) 0]
      ++ acc ++ tr
-     ++ map (fun h => triple (obs_ann s1 true h) (obs_ann s1 false h) 0) (slots s1)
-     ++ map (fun d => triple (obs_set s1 true d) (obs_set s1 false d) 0) (seq 0 (length (sets s1)))
+     ++ (if Z.eqb (sx_Z (sx_nth 5 x)) 0
+         then map (fun h => triple (obs_ann s1 true h) (obs_ann s1 false h) 0) (slots s1)
+              ++ map (fun d => triple (obs_set s1 true d) (obs_set s1 false d) 0) (seq 0 (length (sets s1)))
+         else [])
      ++ map (fun ok => if sx_bool ok
                        then triple (sx_of_verdicts (live_only verdicts)) (sx_of_verdicts (live_only demanded)) 0
                        else triple (L [A 0]) (L [A 0]) 0) [sx_nth 0 (sx_nth 4 x); sx_nth 1 (sx_nth 4 x)]
